@@ -25,6 +25,9 @@ def rejects():
     R["net.tcp.Port"] += [("uint32_instance_over", ft.uint32(70000))]
     R["uint32"] += [("varint_instance_over", ft.varint(2**40)), ("filesize_instance_neg", ft.filesize(-5))]
     R["boolean"] += [("uint16_instance_two", ft.uint16(2))]
+    # numbers outside the range that are not whole (truncating them first would land on 0 or on the maximum)
+    R["uint16"] += [("frac_below_zero", -0.5), ("frac_above_max", 65535.5)]
+    R["uint32"] += [("frac_below_zero", -0.25), ("frac_above_max", 4294967295.5)]
     # the decimal TEXT of an integer that is a valid address is not an address
     R["net.ipaddress"] += [("digit_text_of_valid_int", "16909060"), ("digit_text_of_valid_int6", str(2**100))]
     # standard-library objects that are NOT addresses / networks although they subclass or resemble them
@@ -91,6 +94,63 @@ def conversions():
     }
 
 
+def convert_cases(_arg):
+    """The conversions the property names, with their RESULT (not only its type): bytes -> text is UTF-8 with surrogate
+    escapes whatever the process's locale, a naive timestamp is taken as UTC whatever the process's time zone.
+    Runs in the calling process; the check calls it in fresh interpreters under other LC_ALL / TZ settings."""
+    from flow.record import RecordDescriptor
+
+    D = RecordDescriptor("t/conv", [("string", "s"), ("string[]", "sl"), ("datetime", "ts"), ("datetime[]", "tl")])
+    texts = [("utf8_bytes", b"caf\xc3\xa9 \xe4\xb8\xad", "caf\u00e9 \u4e2d"), ("escape_bytes", b"ab\xff", "ab\udcff"), ("ascii_bytes", b"plain", "plain")]
+    naive = dt.datetime(2021, 7, 1, 12, 30, 15, 250)
+    want_ts = [2021, 7, 1, 12, 30, 15, 250, 0]
+
+    def ts_obs(v):
+        return [v.year, v.month, v.day, v.hour, v.minute, v.second, v.microsecond, int(v.utcoffset().total_seconds()) if v.utcoffset() is not None else -1]
+
+    traces = []
+    for label, raw, want in texts:
+        for how in ("construct", "assign", "replace", "list", "source"):
+            ok, raised, exc = False, False, "none"
+            try:
+                if how == "construct":
+                    got = str(D(s=raw).s)
+                elif how == "assign":
+                    r = D()
+                    r.s = raw
+                    got = str(r.s)
+                elif how == "replace":
+                    got = str(D()._replace(s=raw).s)
+                elif how == "list":
+                    got = str(D(sl=[raw]).sl[0])
+                else:
+                    got = str(D(_source=raw)._source)
+                ok = [ord(ch) for ch in got] == [ord(ch) for ch in want]
+            except Exception as e:
+                raised, exc = True, type(e).__name__
+            traces.append({"meta": {"type": "string", "history": [("convert:" + how, label, "accept")]},
+                           "ops": [{"op": "convert", "cand": label + ":" + how, "must": "accept", "raised": raised, "exc": exc, "slot": "typed" if not raised else "unset", "changed": False, "conv_ok": ok}]})
+    for how in ("construct", "assign", "replace", "list"):
+        ok, raised, exc = False, False, "none"
+        try:
+            if how == "construct":
+                got = D(ts=naive).ts
+            elif how == "assign":
+                r = D()
+                r.ts = naive
+                got = r.ts
+            elif how == "replace":
+                got = D()._replace(ts=naive).ts
+            else:
+                got = D(tl=[naive]).tl[0]
+            ok = ts_obs(got) == want_ts
+        except Exception as e:
+            raised, exc = True, type(e).__name__
+        traces.append({"meta": {"type": "datetime", "history": [("convert:" + how, "naive", "accept")]},
+                       "ops": [{"op": "convert", "cand": "naive:" + how, "must": "accept", "raised": raised, "exc": exc, "slot": "typed" if not raised else "unset", "changed": False, "conv_ok": ok}]})
+    return traces
+
+
 def safe_obs(rec):
     """deep observation of a record; a value that cannot even be looked at (its own accessors raise) is reported as such"""
     try:
@@ -127,9 +187,10 @@ def run(tier):
 
     ctx = check.Ctx(PROP, tier)
     thorough = tier == "thorough"
-    ctx.design("Slots", "MC_Slots.cfg", "all histories <= 4 over candidate classes accept / reject / unspecified(ok|refused) / None", actions=("Offer",), workers=4)
+    ctx.design("Slots", "MC_Slots.cfg", "all histories <= 4 over candidate classes accept / reject / unspecified(ok|refused) / None", actions=("Offer", "FillInPlace", "Fresh"), workers=4)
     if thorough:
         ctx.sensitivity("Slots", "MC_Slots_dev_store.cfg", "storing before converting must violate SlotsTyped", "SlotsTyped", workers=4)
+        ctx.sensitivity("Slots", "MC_Slots_dev_shared.cfg", "one default object per record class must violate FreshStartsEmpty", "FreshStartsEmpty", workers=4)
         ctx.sensitivity("Slots", "MC_Slots_dev_range.cfg", "a missing range check must violate SlotsTyped", "SlotsTyped", workers=4)
     vc = gen.value_classes()
     REJ, UNS, CONV = rejects(), unspecified(), conversions()
@@ -189,6 +250,13 @@ def run(tier):
             hist.append([("construct", gc), ("assign", tc)])
             hist.append([("construct", gc), ("replace", tc)])
             hist.append([("construct", gc), ("construct", tc)])
+        # the empty default of a list / digest field filled IN PLACE on one record; then other records of the type built, copied
+        # and decoded without a value for the field: each starts with the empty default
+        if islist or t == "digest":
+            goodv = next((c for c in cands if c[2] == "accept" and c[1]), None)
+            if goodv is not None:
+                for how in ("construct", "kwargs", "decode", "replace-other"):
+                    hist.append([("construct", ("none", None, "none")), ("fill", goodv), ("fresh:" + how, ("none", None, "none"))])
         for h in hist:
             rec = None
             ops = []
@@ -200,7 +268,26 @@ def run(tier):
                 before = safe_obs(rec) if rec is not None else None
                 raised, exc = False, "none"
                 try:
-                    if op == "construct" or rec is None:
+                    if op == "fill":
+                        if islist:
+                            rec.f.append(D([v[0]], "x").f[0])          # an element already of the element type (in-place changes are not converted)
+                        else:
+                            rec.f.md5 = "d41d8cd98f00b204e9800998ecf8427e"
+                    elif op.startswith("fresh:"):
+                        how = op.split(":")[1]
+                        if how == "construct":
+                            rec = D(None, "y", _generated=gen.GEN)
+                        elif how == "kwargs":
+                            rec = D(g="y", _generated=gen.GEN)
+                        elif how == "replace-other":
+                            rec = D(g="z", _generated=gen.GEN)._replace(g="y")
+                        else:
+                            p0 = RecordPacker()
+                            q0 = RecordPacker()
+                            q0.register(q0.unpack(p0.pack(D)))
+                            rec = q0.unpack(rc.record_frame(D.name, [tuple(x) for x in D.get_field_tuples()], [None, "y", None, None, rc.ext_datetime_utc(2020, 1, 2, 3, 4, 5, 6), 1])[4:])
+                        op = "fresh"
+                    elif op == "construct" or rec is None:
                         new = D(v, "x", _generated=gen.GEN)
                         rec = new
                     elif op == "assign":
@@ -279,6 +366,16 @@ def run(tier):
                                "fin": {"done": True, "all_accepted": False, "packed": True, "decoded_typed": True, "why": "none"}})
                 metas.append({"type": tn, "history": [("decode", label, must)]})
                 ctx.case(json.dumps(metas[-1]))
+    # CONVERSIONS with their result, in this process and in fresh ones under another locale / time zone
+    for env in (None, {"LC_ALL": "C", "LANG": "C", "PYTHONUTF8": "0", "PYTHONCOERCECLOCALE": "0"}, {"TZ": "America/New_York"}, {"TZ": "Asia/Kolkata", "LC_ALL": "POSIX", "PYTHONUTF8": "0", "PYTHONCOERCECLOCALE": "0"}):
+        got = convert_cases(None) if env is None else common.in_fresh_process("c05", "convert_cases", None, env)
+        for tcase in got:
+            m = tcase["meta"]
+            m["env"] = env or {}
+            m["history"] = [tuple(h) for h in m["history"]]
+            traces.append({"ops": tcase["ops"], "fin": {"done": True, "all_accepted": False, "packed": True, "decoded_typed": True, "why": "none"}})
+            metas.append(m)
+            ctx.case(json.dumps(m, sort_keys=True))
     ctx.sample({"meta": metas[3], "trace": traces[3]})
     path = os.path.join(common.scratch("c05"), "traces.json")
     tlc.write_json(path, traces)
